@@ -251,9 +251,35 @@ def _eval_cmp(op, a, b):
     return {"==": a == b, "!=": a != b, "<": a < b, "<=": a <= b, ">": a > b, ">=": a >= b}.get(op)
 
 
+def known_logic_value(F, i, consts):
+    """Value of a condition that contains a short-circuit operator whose outcome was
+    already decided by the edge taken out of its left operand (clang's CFG routes
+    `!(a && b)` through a join block without duplicating the branch)."""
+    neg = False
+    while True:
+        i = F.strip(i)
+        nd = F.nodes[i]
+        k = nd.get("k")
+        if k == "un" and nd["op"] == "!":
+            neg = not neg
+            i = nd["e"]
+        elif k == "call" and nd.get("fn") == "__builtin_expect":
+            i = nd["a"][0]
+        elif k == "bin" and nd["op"] in ("&&", "||"):
+            v = consts.get("?v%d" % i)
+            if v is not None:
+                return bool(v) != neg
+            i = nd["rh"]
+        else:
+            return None
+
+
 def eval_cond(F, i, consts, facts):
     """Decide a branch condition from propagated constants / recorded facts.
     Returns True/False/None."""
+    kv = known_logic_value(F, i, consts)
+    if kv is not None:
+        return kv
     key, t, j = cond_key(F, i, True)
     nd = F.nodes[j]
     if "cv" in nd:
@@ -365,6 +391,7 @@ def simulate(F, ts, init=None, max_states=200000, entry_facts=None, entry_consts
             key, t, j = cond_key(F, B.tc, True)
             aj, at = cond_atom(F, B.tc, True)
             pure = _pure_for_fact(F, j)
+            decided_by_logic = known_logic_value(F, B.tc, consts) is not None
             for truth, s in ((True, succs[0]), (False, succs[1])):
                 if s is None:
                     continue
@@ -382,7 +409,11 @@ def simulate(F, ts, init=None, max_states=200000, entry_facts=None, entry_consts
                             if xn.get("k") == "ref" and xn.get("dk") in ("var", "param") and "cv" in yn \
                                     and "cv" not in xn:
                                 implied = (xn["n"], yn["cv"])
-                edges.append((s, key if pure else None, truth if t else (not truth), implied, aj, aval))
+                if decided_by_logic:
+                    # the operand shown by cond_atom was not evaluated on this path
+                    edges.append((s, None, True, None, None, None))
+                else:
+                    edges.append((s, key if pure else None, truth if t else (not truth), implied, aj, aval))
         elif B.tk == "SwitchStmt" and B.tc is not None:
             key = F.render(F.strip(B.tc))
             cvals = [F.blocks[s].case for s in succs if s is not None and F.blocks[s].case is not None]
@@ -418,6 +449,15 @@ def simulate(F, ts, init=None, max_states=200000, entry_facts=None, entry_consts
             if B.tk in ("ConditionalOperator", "BinaryConditionalOperator") and aj is not None:
                 nc = dict(nc)
                 nc["?%d" % B.tc] = 1 if (s == succs[0]) else 0
+            if B.tk in ("&&", "||") and B.ts is not None and len(succs) == 2:
+                nc = dict(nc)
+                took_true = (s == succs[0])
+                if B.tk == "&&" and not took_true:
+                    nc["?v%d" % B.ts] = 0
+                elif B.tk == "||" and took_true:
+                    nc["?v%d" % B.ts] = 1
+                else:
+                    nc.pop("?v%d" % B.ts, None)
             for st2 in states:
                 r = ts.edge(F, bid, key, truth, st2, Ctx(F, nc, nf, bid, aj, aval))
                 rs = r if isinstance(r, (set, list)) else ([r] if r is not None else [])
